@@ -36,12 +36,15 @@ def _contract(c):
         lambda: intersect_with_adjacents(np.zeros(n + 1, [("a", "<u8"), ("b", "<u4")])["a"], np.arange(n + 1, dtype=np.uint64)),
         lambda: intersect(np.broadcast_to(u([5]), (n + 1,)), u([5, 6])),
     ]
-    for f in calls:
+    odd = []
+    for i, f in enumerate(calls):
         try:
             f()
         except (ValueError, IndexError, OverflowError, TypeError, KeyError):
             pass
-    return 0
+        except Exception as e:      # noqa  (a rejection of another type: still no memory fault; reported, never silent)
+            odd.append([i, type(e).__name__])
+    return {"contract_calls": len(calls), "other_exceptions": odd}
 
 
 def _workload(c):
